@@ -256,6 +256,24 @@ def apply_op(idnt, op, log=None):
             if kind == "prep":
                 steps = copy.deepcopy(op["steps"])
                 options = copy.deepcopy(op.get("options"))
+                if op.get("shared_options") and options is not None:
+                    # the caller keeps ONE options dictionary for this curve
+                    # and edits it in place (nested entries included) to
+                    # what it wants next, then passes the same object
+                    shared = idnt.__dict__.setdefault("_sim_shared_opts", {})
+                    for k_ in list(shared):
+                        if k_ not in options:
+                            del shared[k_]
+                    for k_, v_ in options.items():
+                        if isinstance(shared.get(k_), dict) and \
+                                isinstance(v_, dict):
+                            for kk in list(shared[k_]):
+                                if kk not in v_:
+                                    del shared[k_][kk]
+                            shared[k_].update(v_)
+                        else:
+                            shared[k_] = v_
+                    options = shared
                 route = op.get("route", "apply")
                 if route == "apply":
                     idnt.apply_preprocessing(steps, options)
@@ -284,6 +302,26 @@ def apply_op(idnt, op, log=None):
                 else:
                     v = copy.deepcopy(v)
                 idnt.fit_properties[op["key"]] = v
+            elif kind == "retype":
+                from nanite.fit import FP_DEFAULT
+                key = op["key"]
+                cur = idnt.fit_properties.get(key, FP_DEFAULT.get(key))
+                if isinstance(cur, (bool, np.bool_)):
+                    new = int(cur) if key != "weight_cp" else 0
+                elif isinstance(cur, (int, np.integer)):
+                    new = (bool(cur) if cur in (0, 1) and key in (
+                        "weight_cp", "optimal_fit_edelta", "gcf_k")
+                        else float(cur))
+                elif isinstance(cur, float) and cur == int(cur):
+                    new = int(cur)
+                else:
+                    new = cur
+                if key == "segment" and isinstance(new, (bool, float)):
+                    new = cur       # a segment must stay integral
+                if op.get("route") == "fit":
+                    idnt.fit_model(**{key: new})
+                else:
+                    idnt.fit_properties[key] = new
             elif kind == "nudge":
                 # tiny change of a stored numeric setting (or of one
                 # parameter attribute), applied through the given route
@@ -767,9 +805,16 @@ def gen_nudge(rng):
                       "params_initial", "params_initial"])
     op = {"op": "nudge", "key": key,
           "route": rng.choice(["fit", "fit", "setitem"])}
+    if rng.random() < 0.2:
+        # equal value, other type (False <-> 0, 1 <-> 1.0, True <-> 1)
+        return {"op": "retype", "key": rng.choice(
+            ["weight_cp", "gcf_k", "optimal_fit_edelta", "segment",
+             "optimal_fit_num_samples"]),
+            "route": rng.choice(["fit", "setitem"])}
     if key == "range_x":
         op["index"] = rng.randrange(2)
-        op["delta"] = rng.choice([5e-9, -3e-9, 1e-10, 8e-9, 2e-8, 1e-12])
+        op["delta"] = rng.choice([5e-9, -3e-9, 1e-10, 8e-9, 2e-8, 1e-12,
+                                  2e-6, -2e-6, 3e-6])
     elif key == "weight_cp":
         op["delta"] = rng.choice([1e-9, 5e-9, 1e-12])
     elif key == "gcf_k":
@@ -865,7 +910,8 @@ class CurveEngineC03:
             combos = [(route, k) for k in FIT_KEYS
                       for route in ("fit", "setfp")] + \
                 [("nudge", None), ("nudge", None), ("details", None),
-                 ("emod", None), ("same_prep", None), ("getinit", None)]
+                 ("emod", None), ("same_prep", None), ("getinit", None),
+                 ("retype", None), ("retype", None), ("range0", None)]
             route, key = combos[index % len(combos)]
             if route == "fit":
                 ops.append({"op": "fit", "kw": gen_fit_kw(
@@ -876,6 +922,20 @@ class CurveEngineC03:
                             "value": kw.get(key)})
             elif route == "nudge":
                 ops.append(gen_nudge(rng))
+            elif route == "retype":
+                ops.append({"op": "retype", "key": rng.choice(
+                    ["weight_cp", "gcf_k", "optimal_fit_edelta"]),
+                    "route": rng.choice(["fit", "setitem"])})
+            elif route == "range0":
+                # plateau search on, then only the lower bound moves (above
+                # the upper one: an inverted, legal range)
+                ops.append({"op": "fit", "kw": {
+                    "optimal_fit_edelta": True,
+                    "optimal_fit_num_samples": 5,
+                    "range_x": [-1e-6, 5e-7]}})
+                ops.append({"op": "nudge", "key": "range_x", "index": 0,
+                            "delta": rng.choice([2e-6, 3e-6]),
+                            "route": rng.choice(["fit", "setitem"])})
             elif route == "details":
                 ops.append({"op": "prep", "route": "details",
                             "steps": ["compute_tip_position",
@@ -1032,7 +1092,7 @@ class CurveEngineC03:
             if not outcome.get("ok") and not outcome.get("injected"):
                 probes["op rejected (invalid call)"] += 1
             if had_result and op["op"] in ("prep", "fit", "setfp", "getinit",
-                                           "nudge"):
+                                           "nudge", "retype"):
                 nontrivial = True
             if op["op"] == "nudge" and outcome.get("ok"):
                 probes["tiny change of a numeric setting"] += 1
@@ -1246,7 +1306,10 @@ def check_request(prop, idnt, cfg, op, outcome, i, steps, options,
     where = request_remembered(idnt, steps, options, route)
     # the attributes count only if the *library* wrote the rejected request
     # into them during this call (the user may have set them before)
+    # (not with a shared options dict: if the user assigned that very
+    # object to the attribute earlier, the in-place edit shows there)
     if where is None and route != "attr" and pre_attr is not None and \
+            not op.get("shared_options") and \
             idnt.preprocessing == steps and \
             idnt.preprocessing_options == options and \
             pre_attr != [steps, options]:
@@ -1353,6 +1416,21 @@ class CurveEngineC06:
                   "route": rng.choice(["apply", "apply", "fit_kw", "attr",
                                        "details"]),
                   "steps": steps, "options": options}
+            if options is not None and rng.random() < 0.25:
+                op["shared_options"] = True
+                if options.get("correct_tip_offset") and \
+                        rng.random() < 0.7:
+                    # ... and right away the same request with one nested
+                    # option changed in place
+                    ops.append(op)
+                    recent.append(op)
+                    op = copy.deepcopy(op)
+                    op.pop("fault", None)
+                    cur = op["options"]["correct_tip_offset"].get("method")
+                    op["options"]["correct_tip_offset"]["method"] = \
+                        rng.choice([m for m in POC_METHODS[:1]
+                                    + POC_METHODS[4:] if m != cur])
+                    op["route"] = rng.choice(["apply", "fit_kw"])
             if was_invalid and rng.random() < 0.4:
                 # what a user does next: fit on another axis (records the
                 # default, empty pipeline), then ask for the raw data
@@ -1540,7 +1618,7 @@ class CurveEngineC06:
             raise core.HarnessError("clone is not observation-equal")
         # count the seam calls this request makes (on a clone)
         probe_op = {k: v for k, v in op.items()
-                    if k not in ("fault", "enum_faults")}
+                    if k not in ("fault", "enum_faults", "shared_options")}
         PLAN.disarm()
         c0 = dict(PLAN.total)
         out0 = apply_op(base, probe_op)
@@ -1710,6 +1788,7 @@ def gen_rate_kw(rng):
 
 class CurveEngineC09:
     prop = "C09"
+    track_history = True
     components = COMPONENTS
     assumptions = [
         "a configuration is in the domain iff the standalone get_rater "
@@ -1883,10 +1962,21 @@ class CurveEngineC09:
                             "factor": rng.choice([1.5, 0.5, -1.0])})
             else:
                 steps = gen_pipeline(rng)
-                ops.append({"op": "prep",
-                            "route": rng.choice(["apply", "fit_kw"]),
-                            "steps": steps,
-                            "options": gen_options(rng, steps)})
+                op = {"op": "prep",
+                      "route": rng.choice(["apply", "fit_kw", "details"]),
+                      "steps": steps, "options": gen_options(rng, steps)}
+                if rng.random() < 0.4:
+                    # the standard pipeline again, e.g. to look at its
+                    # details after a fit
+                    op["steps"] = ["compute_tip_position",
+                                   "correct_force_offset",
+                                   "correct_tip_offset"]
+                    op["options"] = None
+                ops.append(op)
+                if rng.random() < 0.5:
+                    kw, ts = rng.choice(pool)
+                    ops.append({"op": "rate", "kw": copy.deepcopy(kw),
+                                "ts": ts})
         xproc = (index % 16 == 5)
         return {"config": {"curve": cfg, "swarm": swarm, "xproc": xproc},
                 "ops": ops}
@@ -1897,6 +1987,13 @@ class CurveEngineC09:
         seams.install_lmfit_determinism()
         seams.install_rater_memo(RATERS)
         seams.snapshot_globals()
+        if run.get("history") and not run.get("_child"):
+            # replay of a finding that depends on what this worker executed
+            # before
+            for h in run["history"]:
+                seams.restore_globals()
+                with core.Scratch("c09") as scratch:
+                    self._execute(h, scratch)
         seams.restore_globals()
         try:
             with core.Scratch("c09") as scratch:
@@ -2418,7 +2515,12 @@ def c10_apply(idnt, caller, op):
                 caller.hold(op["slot"], p, returned=True)
             elif kind == "fit":
                 kw = {}
-                for k in sorted(op.get("args", {})):
+                # keyword arguments are a mapping: the aliasing caller
+                # passes them in the order of the op (shuffled by the
+                # generator), the by-value caller alphabetically
+                order = list(op.get("args", {})) if caller.alias \
+                    else sorted(op.get("args", {}))
+                for k in order:
                     kw[k] = A(k, op["args"][k],
                               kw_model=op["args"].get("model_key")
                               if isinstance(op["args"].get("model_key"),
@@ -2667,6 +2769,19 @@ def c10_gen_scenario(rng, sid):
             "kind": "dict_set", "path": ["max_nfev"],
             "value": rng.choice([4, 8, 12])}})
         ops.append({"op": "fit", "args": {"method_kws": {"slot": s}}})
+    elif kind == "range_x" and rng.random() < 0.35:
+        # plateau search first; then it is switched off in the same call
+        # that passes the (edited) range - keyword order must not matter
+        ops.append({"op": "new", "slot": s, "what": "range_x",
+                    "spec": [-1e-6, 5e-7]})
+        ops.append({"op": "fit", "args": {
+            "range_x": {"slot": s}, "optimal_fit_edelta": True,
+            "optimal_fit_num_samples": 5}})
+        ops.append({"op": "mutate", "slot": s, "edit": {
+            "kind": "list_set", "index": 0,
+            "value": rng.choice([-6e-7, -3e-7])}})
+        ops.append({"op": "fit", "args": {
+            "range_x": {"slot": s}, "optimal_fit_edelta": False}})
     elif kind == "range_x":
         extra.pop("range_x", None)
         extra.pop("optimal_fit_edelta", None)
@@ -2728,6 +2843,13 @@ def c10_gen_scenario(rng, sid):
             "kind": "array_set", "index": rng.randrange(40),
             "value": 0.5}})
         ops.append({"op": "rate_samples", "samples": {"slot": s}})
+    # keyword arguments in a seeded order
+    for o in ops:
+        if o["op"] == "fit" and len(o.get("args", {})) > 1 \
+                and rng.random() < 0.5:
+            ks = list(o["args"])
+            rng.shuffle(ks)
+            o["args"] = {k_: o["args"][k_] for k_ in ks}
     return ops
 
 
